@@ -184,3 +184,34 @@ def linearize(spelling, valkind):
             print('REPLAY: VIOLATION-CONFIRMED linearize is not the directional derivative')
             return
     print('REPLAY: not reproduced')
+
+
+def argument_shape_check():
+    """evaluable.Argument('u', (2, 3)): supplied values of another shape (also broadcastable ones) must raise ValueError, the right shape is returned unchanged"""
+    from nutils import evaluable as ev
+    for dtype in (float, int):
+        u = ev.Argument('u', (ev.constant(2), ev.constant(3)), dtype)
+        f = ev.compile(u, _simplify=False, _optimize=False)
+        good = numpy.arange(6).reshape(2, 3).astype(dtype)
+        try:
+            r = f(dict(u=good, v=numpy.zeros((4,))))
+        except Exception as e:
+            print('a value of the declared shape raised %s: %s' % (type(e).__name__, e))
+            print('REPLAY: VIOLATION-CONFIRMED a value of the right shape is rejected')
+            return
+        if numpy.shape(r) != (2, 3) or not (numpy.asarray(r) == good).all():
+            print('REPLAY: VIOLATION-CONFIRMED the supplied value %r came back as %r' % (good, r))
+            return
+        for bad in (numpy.zeros((3,), dtype), numpy.zeros((1, 3), dtype), numpy.zeros((2, 1), dtype), numpy.zeros((), dtype), numpy.zeros((2, 3, 1), dtype), numpy.zeros((1, 2, 3), dtype), numpy.zeros((3, 2), dtype), numpy.zeros((2, 4), dtype), [1, 2, 3], 5):
+            try:
+                r = f(dict(u=bad))
+            except ValueError:
+                continue
+            except Exception as e:
+                print('a value of shape %r for an argument of shape (2, 3) raised %s: %s' % (numpy.shape(bad), type(e).__name__, e))
+                print('REPLAY: VIOLATION-CONFIRMED wrong shape raises %s instead of ValueError' % type(e).__name__)
+                return
+            print('a value of shape %r was accepted for an argument of shape (2, 3); result has shape %r' % (numpy.shape(bad), numpy.shape(r)))
+            print('REPLAY: VIOLATION-CONFIRMED a value of the wrong shape is accepted')
+            return
+    print('REPLAY: not reproduced')
